@@ -191,6 +191,19 @@ pub fn ev_pipeline<K: Kmer + Send + Sync>(sink: &Sink, r: &mut Rng, inp: &GInput
     sink.emit(e);
 }
 
+/// real edge lists of a node list (finished with the real index): [[node, dir, [[target, side, flip]..]]..]
+pub fn real_edges<K: Kmer + Send + Sync>(nodes: &[NodeP], stranded: bool) -> Value {
+    let g = base_from_nodes::<K>(nodes, stranded).finish();
+    let mut ev: Vec<Value> = Vec::new();
+    for i in 0..g.len() {
+        let n = g.get_node(i);
+        for d in [Dir::Left, Dir::Right] {
+            ev.push(json!([i, dir_str(d), n.edges(d).iter().map(|x| json!([x.0, dir_str(x.1), x.2])).collect::<Vec<_>>()]));
+        }
+    }
+    json!(ev)
+}
+
 /// `strand` event (C06): a read set and the same set with a subset of reads reverse-complemented,
 /// through table construction and every pipeline variant.
 pub fn ev_strand<K: Kmer + Send + Sync>(sink: &Sink, r: &mut Rng, inp: &GInput, flips: &[bool]) {
@@ -213,7 +226,10 @@ pub fn ev_strand<K: Kmer + Send + Sync>(sink: &Sink, r: &mut Rng, inp: &GInput, 
             let pr = prune_rows::<K>(&t, inp.stranded);
             let spec = Spec { mode: Mode::Sum };
             let re = project_graph(&compress_graph(inp.stranded, &spec, one_per_kmer::<K>(&pr, inp.stranded).finish(), None));
-            (t, direct, sharded, re)
+            // straight after compression of the UNPRUNED table (extensions to rejected k-mers still present)
+            let raw = project_base(&compress_rows::<K>(&t, inp.stranded, Mode::Sum, "hash"));
+            let edges: Vec<Value> = [&direct, &sharded, &re, &raw].iter().map(|g| real_edges::<K>(g, inp.stranded)).collect();
+            (t, direct, sharded, re, raw, edges)
         };
         (run(&inp.reads), run(&reads2))
     });
@@ -225,9 +241,10 @@ pub fn ev_strand<K: Kmer + Send + Sync>(sink: &Sink, r: &mut Rng, inp: &GInput, 
             e["ta"] = rows_json(&a.0);
             e["tb"] = rows_json(&b.0);
             e["runs"] = json!([
-                {"variant":"direct","a":nodes_json(&a.1),"b":nodes_json(&b.1)},
-                {"variant":"sharded","a":nodes_json(&a.2),"b":nodes_json(&b.2)},
-                {"variant":"recompressed","a":nodes_json(&a.3),"b":nodes_json(&b.3)}]);
+                {"variant":"direct","pruned":true,"a":nodes_json(&a.1),"b":nodes_json(&b.1),"ea":a.5[0],"eb":b.5[0]},
+                {"variant":"sharded","pruned":true,"a":nodes_json(&a.2),"b":nodes_json(&b.2),"ea":a.5[1],"eb":b.5[1]},
+                {"variant":"recompressed","pruned":true,"a":nodes_json(&a.3),"b":nodes_json(&b.3),"ea":a.5[2],"eb":b.5[2]},
+                {"variant":"unpruned","pruned":false,"a":nodes_json(&a.4),"b":nodes_json(&b.4),"ea":a.5[3],"eb":b.5[3]}]);
             e["panic"] = json!("");
         }
         Err(m) => {
